@@ -23,6 +23,18 @@ pub enum Fam {
     /// knapsack with profits in {0,1} (many value ties) whose second merge operator returns the FULL capacity: the merged
     /// state frequently equals an exact kept node of the layer (recycling)
     Kpz { name: &'static str, n: usize },
+    /// knapsack: a hand-written instance (7 to 11 items, capacity 16 to 23, profits up to 12) and ALL instances at Hamming
+    /// distance 1 from it (one weight, one profit or the capacity changed by one) -- deviation bounding applied to inputs;
+    /// searches of 100 to 2000 polls whose fringe holds the same (state, depth) several times with different bounds
+    Kph { name: &'static str, seed: usize },
+}
+/// the seeds of the KPH families: (capacity, profits, weights)
+pub fn kph_seeds() -> Vec<(usize, Vec<i8>, Vec<usize>)> {
+    vec![
+        (17, vec![8, 5, 9, 8, 6, 7, 3], vec![6, 4, 6, 6, 6, 2, 4]),
+        (23, vec![4, 9, 9, 6, 2, 6, 12, 4, 12, 6], vec![6, 6, 6, 6, 1, 6, 6, 4, 5, 1]),
+        (16, vec![1, 10, 9, 5, 12, 11, 4, 11, 12, 7, 5], vec![2, 4, 3, 3, 1, 6, 6, 4, 1, 1, 2]),
+    ]
 }
 
 fn binom(n: u64, k: u64) -> u64 { if k > n { 0 } else { (0..k).fold(1u64, |a, i| a * (n - i) / (i + 1)) } }
@@ -68,7 +80,7 @@ const NEIGH_C: [i8; 5] = [-1, 0, 1, 2, 3];
 
 impl Fam {
     pub fn name(&self) -> &'static str {
-        match self { Fam::Tm { name, .. } | Fam::TmNeigh { name, .. } | Fam::TmIrr { name, .. } | Fam::Sp { name, .. } | Fam::Kp { name, .. } | Fam::Kpz { name, .. } | Fam::Kpb { name, .. } => name }
+        match self { Fam::Tm { name, .. } | Fam::TmNeigh { name, .. } | Fam::TmIrr { name, .. } | Fam::Sp { name, .. } | Fam::Kp { name, .. } | Fam::Kpz { name, .. } | Fam::Kpb { name, .. } | Fam::Kph { name, .. } => name }
     }
     fn tm_entries(n: usize, s: usize, nd: usize) -> Vec<(usize, usize, usize)> {
         let mut e = vec![];
@@ -100,6 +112,7 @@ impl Fam {
             Fam::Kp { n, .. } => 9u64.pow(*n as u32) * 7,
             Fam::Kpz { n, .. } => 6u64.pow(*n as u32) * 7,
             Fam::Kpb { n, .. } => 4u64.pow(*n as u32) * 7,
+            Fam::Kph { seed, .. } => 1 + 4 * kph_seeds()[*seed].1.len() as u64 + 2,
         }
     }
     fn dims(&self) -> (usize, usize) {
@@ -266,6 +279,27 @@ impl Fam {
                 var.bonus = false;
                 Tm::new(*n, s, 2, tr, 0, var, name).with_mode(mode).with_root(cap)
             }
+            Fam::Kph { name, seed } => {
+                let (mut cap, mut profit, mut weight) = kph_seeds()[*seed].clone();
+                let n = profit.len();
+                // idx 0: the seed; then per item: weight-1, weight+1, profit-1, profit+1; then capacity-1, capacity+1
+                if idx >= 1 {
+                    let j = (idx - 1) as usize;
+                    if j < 4 * n {
+                        let i = j / 4;
+                        match j % 4 { 0 => weight[i] = weight[i].saturating_sub(1).max(1), 1 => weight[i] += 1, 2 => profit[i] = (profit[i] - 1).max(0), _ => profit[i] += 1 }
+                    } else if j == 4 * n { cap -= 1; } else { cap += 1; }
+                }
+                let s = cap + 1;
+                assert!(s <= 32);
+                let mut tr = vec![vec![vec![None; 2]; s]; n];
+                for l in 0..n { for c in 0..s { tr[l][c][0] = Some((c as u8, 0)); if weight[l] <= c { tr[l][c][1] = Some(((c - weight[l]) as u8, profit[l])); } } }
+                let mut var = var;
+                if var.dom != Dom::Off { var.dom = Dom::Coord; }
+                let mode = if var.bonus { MergeMode::MaxIdxUp } else { MergeMode::MaxIdx };
+                var.bonus = false;
+                Tm::new(n, s, 2, tr, 0, var, name).with_mode(mode).with_root(cap)
+            }
             Fam::Sp { .. } => panic!("not a table model"),
         }
     }
@@ -343,6 +377,9 @@ pub fn all_families() -> Vec<Fam> {
         Fam::Kpb { name: "KPB-7", n: 7 },
         Fam::Kpz { name: "KPZ-3", n: 3 },
         Fam::Kpz { name: "KPZ-4", n: 4 },
+        Fam::Kph { name: "KPH-0", seed: 0 },
+        Fam::Kph { name: "KPH-1", seed: 1 },
+        Fam::Kph { name: "KPH-2", seed: 2 },
     ]
 }
 pub fn family(name: &str) -> Fam {
